@@ -15,7 +15,7 @@ VERIF = os.path.dirname(os.path.dirname(os.path.abspath(__file__)))
 sys.path.insert(0, os.path.join(VERIF, "selftest"))
 import mutations  # noqa: E402
 
-WT = "/tmp/verif-selftest-wt"
+WT = "/tmp/verif-selftest-wt-%d" % os.getpid()  # one worktree per invocation: concurrent invocations must not share it
 
 
 def sh(cmd, **kw):
@@ -28,6 +28,20 @@ def fresh_worktree():
     r = sh("git -C /repo worktree add -f %s HEAD" % WT)
     if r.returncode != 0:
         raise SystemExit("cannot create worktree: " + r.stdout)
+
+
+def save(results):
+    """results are merged into last_results.json after every item (entries are replaced by id, others kept)"""
+    out = os.path.join(VERIF, "selftest", "last_results.json")
+    try:
+        old = json.load(open(out))
+    except Exception:
+        old = []
+    ids = set(r["id"] for r in results)
+    merged = [r for r in old if r["id"] not in ids] + results
+    tmp = out + ".tmp"
+    json.dump(merged, open(tmp, "w"), indent=1)
+    os.replace(tmp, out)
 
 
 def main():
@@ -44,6 +58,9 @@ def main():
                 items.append({"id": "seeded-" + d, "prop": mj["property"], "expect": 1, "patch": os.path.join(sd, d, "patch.diff"), "note": mj.get("needs", ""), "kind": "seeded"})
     if sel:
         items = [i for i in items if any(s in i["id"] for s in sel)]
+    else:
+        # property-preserving changes first (a false alarm is the worst outcome), then the most recent changes
+        items = [i for i in items if i["expect"] == 0] + list(reversed([i for i in items if i["expect"] != 0]))
     results = []
     fresh_worktree()
     try:
@@ -76,20 +93,13 @@ def main():
             print("%-45s expect %d got %d  %s  %.0fs  %s" % (it["id"], it["expect"], r.returncode, "OK " if good else "BAD", time.time() - t0, "; ".join(sigs)[:160]))
             if not good:
                 print("    " + "\n    ".join(r.stdout.splitlines()[-6:]))
-            results.append(dict(id=it["id"], prop=it["prop"], expect=it["expect"], got=r.returncode, ok=good, signatures=sigs, seconds=round(time.time() - t0, 1), note=it.get("note", "")))
+            results.append(dict(id=it["id"], prop=it["prop"], expect=it["expect"], got=r.returncode, ok=good, signatures=sigs, seconds=round(time.time() - t0, 1), note=it.get("note", ""),
+                                verif_commit=sh("git -C %s rev-parse --short HEAD" % VERIF).stdout.strip()))
+            save(results)
     finally:
         sh("git -C /repo worktree remove --force %s" % WT)
         sh("rm -rf %s" % WT)
-    out = os.path.join(VERIF, "selftest", "last_results.json")
-    if sel:
-        # a partial run updates the entries it executed and keeps the others
-        try:
-            old = json.load(open(out))
-        except Exception:
-            old = []
-        ids = set(r["id"] for r in results)
-        results = [r for r in old if r["id"] not in ids] + results
-    json.dump(results, open(out, "w"), indent=1)
+    save(results)
     bad = [r for r in results if not r["ok"]]
     print("%d/%d as expected" % (len(results) - len(bad), len(results)))
     return 1 if bad else 0
